@@ -90,7 +90,7 @@ def ttsvd(E, s):
     if rmax == 'sym':
         kw['rmax'] = E.int('rmax', 1, s['rmax_hi'])
     elif rmax is not None:
-        kw['rmax'] = rmax
+        kw['rmax'] = list(rmax) if isinstance(rmax, list) else rmax
     if s.get('ttm'):
         M, N = s['M'], s['N']
         T = E.tt.TT(A, [(m, n) for m, n in zip(M, N)], eps=eps, **kw)
@@ -111,6 +111,8 @@ def ttsvd(E, s):
         target = list(Nt)
         d = len(Nt)
         modes = list(Nt)
+    if isinstance(rmax, list):
+        E.true('rmax_argument_intact', kw['rmax'] == list(s['rmax']) and all(type(v) is int for v in kw['rmax']))
     R = [int(r) for r in T.R]
     E.true('rank_list_length', len(R) == d + 1)
     E.true('boundary_ranks', R[0] == 1 and R[-1] == 1)
@@ -139,7 +141,8 @@ def ttsvd(E, s):
     err2 = tn.sum(diff * diff)
     nrm2 = tn.sum(Ad * Ad)
     maxrank = max([1] + [min(prod(umodes[:k]), prod(umodes[k:])) for k in range(1, d)])
-    bound_ok = err2.item() <= ((eps * eps) * (1 + DELTA) + 1e-26) * nrm2.item()
+    ro2 = 1e-26 if s.get('dtype', 'float64') == 'float64' else 4e-12       # (relative roundoff)^2 of the dtype: replay slack only
+    bound_ok = err2.item() <= ((eps * eps) * (1 + DELTA) + ro2) * nrm2.item()
     if rmax is None:
         E.true('accuracy', bound_ok)
     elif rmax == 'sym':
